@@ -148,7 +148,8 @@ V_C03(a, o) ==
   ELSE IF Refusal(o.it1) THEN VTriv("iteration-refused")
   ELSE
     LET kr  == ElKeys(r.el)
-        exp == Deliver(Ref([op |-> "items", in |-> a]))
+        ri  == Ref([op |-> "items", in |-> a])    \* (may be undefined: no verdict then)
+        exp == Deliver(ri)
         Under(k) == SelectIdx(r.el, LAMBDA x : x.k = k, 1)
         ElOut(x) == IF x.ok THEN OkV(x.v) ELSE ErrV(x.e)
         LookupBad(g) ==
@@ -166,7 +167,7 @@ V_C03(a, o) ==
     ELSE IF o.keys.ok /\ r.kcap # "keys" /\ o.it1.exc = "none" /\ o.keys.ks # kr
       THEN VViol("keys-returned-but-not-aligned")
     ELSE IF r.kcap = "keys" /\ Refusal(o.itk) THEN VViol("items-refused")
-    ELSE IF ~Refusal(o.itk) /\ ~SameIter(o.itk, exp) THEN VViol("items-not-aligned")
+    ELSE IF ~Refusal(o.itk) /\ ri.refuse = "none" /\ ~SameIter(o.itk, exp) THEN VViol("items-not-aligned")
     ELSE IF \E j \in 1..Len(o.gs) : LookupBad(o.gs[j]) THEN VViol("key-lookup")
     ELSE IF r.kcap = "none" \/ r.el = <<>> THEN VTriv("no-keys") ELSE VOk
 
@@ -190,8 +191,10 @@ V_C14(a, o, m) ==
   IF ~HasFault(a) THEN VTriv("no-failing-stage-or-catch")
   ELSE LET v == V_C01(a, o, m) IN
        IF v[1] # "ok" THEN v
-       ELSE LET exp == Deliver(Ref([op |-> "items", in |-> a])) IN
-            IF ~Refusal(o.itk) /\ ~SameIter(o.itk, exp) THEN VViol("items-iteration-differs-from-reference")
+       ELSE LET ri == Ref([op |-> "items", in |-> a])
+                exp == Deliver(ri) IN
+            IF ~Refusal(o.itk) /\ ri.refuse = "none" /\ ~SameIter(o.itk, exp)
+            THEN VViol("items-iteration-differs-from-reference")
             ELSE VOk
 
 (***************************************************************************)
